@@ -185,18 +185,17 @@ Proof.
   - (* add_index *)
     match goal with |- context [update_table flavour c ?a ?b ?d ?e] => set (u := update_table flavour c a b d e) end.
     assert (lookup n (c_tables (fst u)) = lookup n (c_tables c)) as Hu.
-    { unfold u, update_table. destruct (negb (v1_name_ok flavour tn)); auto.
+    { unfold u, update_table. match goal with |- context [if negb ?b then _ else _] => destruct (negb b) end; auto.
       destruct (lookup tn (c_tables c)) as [t|] eqn:L; auto.
       assert (t_name t = tn) as N by (destruct HC as [_ H]; now apply H in L as [_ N]).
       destruct (negb (defs_ok t _)); auto.
-      match goal with |- context [if ?b then (t, Some InvalidParam) else _] => destruct b end; auto.
       destruct (add_global_index _ _ _) as [t2|] eqn:Ea; cbn [fst].
       - apply set_table_other. destruct (add_global_index_data _ _ _ _ Ea) as [_ N2]. cbn in N2. congruence.
       - apply set_table_other. cbn. congruence. }
     destruct u; exact Hu.
   - destruct (negb (v1_name_ok flavour tn)); auto. destruct (lookup tn (c_tables c)); auto.
     cbn. now apply lookup_remove_neq.
-  - unfold update_table. destruct (negb (v1_name_ok flavour tn)); auto.
+  - unfold update_table. match goal with |- context [if negb ?b then _ else _] => destruct (negb b) end; auto.
     destruct (lookup tn (c_tables c)) as [t|] eqn:L; auto.
     assert (t_name t = tn) as N by (destruct HC as [_ H]; now apply H in L as [_ N]).
     destruct (negb (defs_ok t defs)); auto.
@@ -210,8 +209,7 @@ Proof.
                        end))) = lookup n (c_tables c)) as Hdel.
     { intros t2 N2. destruct delete as [n0|]; [destruct (mem n0 (t_indexes t2))|]; cbn [fst]; apply set_table_other; cbn; congruence. }
     destruct create as [d|].
-    + match goal with |- context [if ?b then (t, Some InvalidParam) else _] => destruct b end; auto.
-      destruct (add_global_index _ _ d) as [t2|] eqn:Ea.
+    + destruct (add_global_index _ _ d) as [t2|] eqn:Ea.
       * apply Hdel. destruct (add_global_index_data _ _ _ _ Ea) as [_ N2]. cbn in N2. congruence.
       * cbn [fst]. apply set_table_other. cbn. congruence.
     + apply Hdel. cbn. exact N.
